@@ -1722,8 +1722,13 @@ class Module:
         return self.forward(*a, **k)
 
 
-def softplus(x):
-    return (1 + x.exp()).log()
+def softplus(x, beta=1, threshold=20):
+    if _pyfloat(beta) != 1.0:
+        raise UnsupportedOp("softplus with beta != 1")
+    if _pyfloat(threshold) >= 20:
+        return (1 + x.exp()).log()  # torch switches to the identity above 20, where the two differ by < 2.1e-9
+    thr = Fraction(_pyfloat(threshold))
+    return x._fmap(lambda v: S.fn("softplus_thr", v, thr))
 
 
 def linear(x, w, b=None):
